@@ -210,7 +210,10 @@ class Discharger:
             ival = -idx.operand.value
         # string keys
         if isinstance(idx, ast.Constant) and isinstance(idx.value, str):
-            return self.key_subscript(f, n, idx.value)
+            why = self.key_subscript(f, n, idx.value)
+            if why is None:
+                why = self._get_guard(f, n, bs, idx)
+            return why
         if ival is not None:
             # len guard
             ln = self._len_guard(f, n, bs)
@@ -274,11 +277,30 @@ class Discharger:
                     return "table has a row for every platform init_platform can return (fact platform_range)"
         # d[key] guarded by d.get(key)
         if isinstance(base, ast.Name):
+            why = self._get_guard(f, n, bs, idx)
+            if why:
+                return why
             for test, truth in self.guards(f, n):
                 if truth and isinstance(test, ast.Call) and isinstance(test.func, ast.Attribute) and test.func.attr == "get" and src(test.func.value) == bs and test.args and src(test.args[0]) == src(idx):
                     return f"guarded by `{bs}.get({src(idx)})`"
+                if truth and isinstance(test, ast.Compare) and len(test.ops) == 1 and isinstance(test.ops[0], ast.IsNot) and isinstance(test.comparators[0], ast.Constant) and test.comparators[0].value is None:
+                    g = test.left
+                    if isinstance(g, ast.Call) and isinstance(g.func, ast.Attribute) and g.func.attr == "get" and src(g.func.value) == bs and len(g.args) == 1 and src(g.args[0]) == src(idx):
+                        return f"guarded by `{bs}.get({src(idx)}) is not None`"
                 if isinstance(test, ast.Compare) and isinstance(test.ops[0], ast.In) and truth and src(test.left) == src(idx) and src(test.comparators[0]) == bs:
                     return f"guarded by `{src(idx)} in {bs}`"
+        return None
+
+    def _get_guard(self, f: Func, n: ast.AST, bs: str, idx: ast.AST) -> Optional[str]:
+        for test, truth in self.guards(f, n):
+            if truth and isinstance(test, ast.Call) and isinstance(test.func, ast.Attribute) and test.func.attr == "get" and src(test.func.value) == bs and test.args and src(test.args[0]) == src(idx):
+                return f"guarded by `{bs}.get({src(idx)})`"
+            if truth and isinstance(test, ast.Compare) and len(test.ops) == 1 and isinstance(test.ops[0], ast.IsNot) and isinstance(test.comparators[0], ast.Constant) and test.comparators[0].value is None:
+                g = test.left
+                if isinstance(g, ast.Call) and isinstance(g.func, ast.Attribute) and g.func.attr == "get" and src(g.func.value) == bs and len(g.args) == 1 and src(g.args[0]) == src(idx):
+                    return f"guarded by `{bs}.get({src(idx)}) is not None`"
+            if truth and isinstance(test, ast.Compare) and isinstance(test.ops[0], ast.In) and src(test.left) == src(idx) and src(test.comparators[0]) == bs:
+                return f"guarded by `{src(idx)} in {bs}`"
         return None
 
     def _len_ge(self, test: ast.AST, truth: bool, expr: str, need: int) -> bool:
